@@ -153,7 +153,11 @@ impl Prop for C01 {
                 if suite == "ed448" && n > 4 {
                     continue;
                 }
-                for kind in ["wire-bin", "wire-json", "refresh-dealer", "refresh-dkg", "repair"] {
+                let mut kinds = vec!["wire-bin", "wire-json", "refresh-dealer", "refresh-dkg", "repair", "legacy-pkp"];
+                if suite == "secp256k1-tr" {
+                    kinds.extend(["tr-tweak-none", "tr-tweak-empty", "tr-tweak-root"]);
+                }
+                for kind in kinds {
                     let members = match kind {
                         "refresh-dealer" | "refresh-dkg" => std::cmp::min(n, t + 1),
                         _ => n,
@@ -344,6 +348,50 @@ fn run_provenance<C: Suite>(c: &Case) -> Outcome {
         "wire-bin" | "wire-json" => {
             let s = pick::<C>(&grp.ids, *signers);
             session_over_the_wire::<C>(&mut o, &tag, &ctx, kind == "wire-json", &grp.kps, &grp.pkp, &s, &message(3), &format!("{seed}:{signers}"));
+        }
+        "legacy-pkp" => {
+            // the pre-3.0 public key package has no threshold: honest sessions aggregate all the same
+            let s = pick::<C>(&grp.ids, *signers);
+            let legacy = fc::keys::PublicKeyPackage::<C>::new(grp.pkp.verifying_shares().clone(), *grp.pkp.verifying_key(), None);
+            session_check::<C>(&mut o, &tag, &grp.kps, &legacy, &s, &message(3), &format!("{seed}:legacy:{signers}"));
+        }
+        "tr-tweak-none" | "tr-tweak-empty" | "tr-tweak-root" => {
+            // the Taproot crate's tweak entry points: signers and coordinator use the same root
+            let root: Option<Vec<u8>> = match kind.as_str() {
+                "tr-tweak-none" => None,
+                "tr-tweak-empty" => Some(vec![]),
+                _ => Some(vec![0xa5; 32]),
+            };
+            let s = pick::<C>(&grp.ids, *signers);
+            let m = message(3);
+            let (nonces, comms) = commit_all::<C>(&grp.kps, &s, &format!("{seed}:{kind}:{signers}"));
+            let pkg = SigningPackage::<C>::new(comms, &m);
+            let mut shares = BTreeMap::new();
+            o.eval(true);
+            for id in &s {
+                match C::w_sign_with_tweak(&pkg, &nonces[id], &grp.kps[id], root.as_deref()).expect("taproot suite") {
+                    Ok(sh) => {
+                        shares.insert(*id, sh);
+                    }
+                    Err(e) => {
+                        o.fail(format!("{tag}/sign-refused"), format!("{ctx}: sign_with_tweak: {e:?}"));
+                        return o;
+                    }
+                }
+            }
+            match C::w_aggregate_with_tweak(&pkg, &shares, &grp.pkp, root.as_deref()).expect("taproot suite") {
+                Ok(sig) => {
+                    let tweaked = C::w_tweaked_pkp(&grp.pkp, root.as_deref()).expect("taproot suite");
+                    match verify_everywhere::<C>(tweaked.verifying_key(), &m, &sig) {
+                        Ok(()) => {
+                            o.count("tweaked_sessions_verified", 1);
+                            o.class("ok");
+                        }
+                        Err(e) => o.fail(format!("{tag}/signature-does-not-verify"), format!("{ctx}: under the tweaked key: {e}")),
+                    }
+                }
+                Err(e) => o.fail(format!("{tag}/aggregate-failed"), format!("{ctx}: aggregate_with_tweak of honest sign_with_tweak shares failed: {e:?}")),
+            }
         }
         _ => {
             let extra = std::cmp::min(*n, *t + 1) - *t;
